@@ -77,6 +77,20 @@ PTYPES = ['string', 'uint32', 'boolean', 'sint64', 'real64', 'datetime',
           'uint8']
 
 
+def qparts(x, q):
+    """(value, tosubclass, overridable) of a qualifier value spec: either a
+    plain value (flavors of the declaration) or {'v': value, 'ts': bool,
+    'ov': bool} with flavors given where the qualifier is used."""
+    ts, ov = QD[q][2], QD[q][3]
+    if isinstance(x, dict):
+        if x.get('ts') is not None:
+            ts = x['ts']
+        if x.get('ov') is not None:
+            ov = x['ov']
+        return x['v'], ts, ov
+    return x, ts, ov
+
+
 def qual_decls(partial=False):
     """partial: the scopes dict only lists the scopes that apply (as a user
     writing CIMQualifierDeclaration(scopes={'ANY': True}) would)."""
@@ -136,9 +150,11 @@ class Model:
 
     @staticmethod
     def _merge(eff, decl_quals, declared):
-        inh = {q: v for q, v in eff.items() if QD[q][2]}
+        """eff: {lname: (value, tosubclass, overridable)}"""
+        inh = {q: v for q, v in eff.items() if v[1]}
         if declared:
-            inh.update({q.lower(): v for q, v in decl_quals.items()})
+            inh.update({q.lower(): qparts(v, q.lower())
+                        for q, v in decl_quals.items()})
         return inh
 
     def view(self, lname):
@@ -219,12 +235,23 @@ class Gen:
             if r.random() >= p:
                 continue
             name = QD[q][0]
-            if q in inherited and QD[q][2] and not QD[q][3]:
-                out[name] = inherited[q]      # DisableOverride: same value
+            if q in inherited and inherited[q][1] and not inherited[q][2]:
+                # handed down and not overridable: same value (and flavors)
+                out[name] = {'v': inherited[q][0], 'ts': inherited[q][1],
+                             'ov': inherited[q][2]}
             elif q == 'qreno' and overriding and any_qreno:
                 continue
             else:
                 out[name] = self.val(q)
+                if QD[q][2] and QD[q][3] and r.random() < 0.25:
+                    # flavors given where the qualifier is used, stricter
+                    # than those of the declaration
+                    # (never both: redeclaring a Restricted +
+                    # DisableOverride qualifier is ambiguous, see ASSUMPTIONS)
+                    if r.random() < 0.5:
+                        out[name] = {'v': out[name], 'ts': False, 'ov': None}
+                    else:
+                        out[name] = {'v': out[name], 'ts': None, 'ov': False}
         return out
 
     def cls(self, model, name, sup):
@@ -315,9 +342,35 @@ def gen_plan(run_seed, tier, index):
         # modified and gets a new subclass
         script = ['prune', 'modify_pruned', 'create_below']
     pruned = None
+    nfc = 0
     for _ in range(r.randint(3, 14)):
         k = r.random()
         live = sorted(m.cls)
+        if k > 0.93 and live and nfc < 2:
+            # a compile that creates a class and a subclass of it and then
+            # fails (everything is rolled back); afterwards the same names
+            # are created with other content
+            nfc += 1
+            supl = r.choice([None] + [x for x in live if m.depth(x) < 4])
+            sup = m.cls[supl]['name'] if supl else None
+            n1, n2 = 'Fc%da' % len(steps), 'Fc%db' % len(steps)
+            a1 = g.cls(m, n1, sup)
+            m.cls[n1.lower()] = a1
+            b1 = g.cls(m, n2, n1)
+            del m.cls[n1.lower()]
+            steps.append({'op': 'failed_compile', 'classes': [a1, b1],
+                          'reject': True,
+                          'tail': r.choice(['syntax', 'semantic',
+                                            'semantic'])})
+            a2 = g.cls(m, n1, sup)
+            m.cls[n1.lower()] = a2
+            steps.append({'op': 'create', 'cls': a2,
+                          'via': r.choice(['api', 'mof'])})
+            b2 = g.cls(m, n2, n1)
+            m.cls[n2.lower()] = b2
+            steps.append({'op': 'create', 'cls': b2,
+                          'via': r.choice(['api', 'mof', 'add'])})
+            continue
         if script and k < 0.5:
             what = script.pop(0)
             if what == 'prune':
@@ -407,8 +460,18 @@ def gen_plan(run_seed, tier, index):
 
 # ------------------------------------------------------------- building
 def mkquals(qd):
-    return [CIMQualifier(n, pywbem.cimvalue(v, QD[n.lower()][1]),
-                         type=QD[n.lower()][1]) for n, v in qd.items()]
+    out = []
+    for n, x in qd.items():
+        kw = {}
+        if isinstance(x, dict):
+            if x.get('ts') is not None:
+                kw['tosubclass'] = x['ts']
+            if x.get('ov') is not None:
+                kw['overridable'] = x['ov']
+            x = x['v']
+        out.append(CIMQualifier(n, pywbem.cimvalue(x, QD[n.lower()][1]),
+                                type=QD[n.lower()][1], **kw))
+    return out
 
 
 def build_class(spec):
@@ -457,8 +520,19 @@ def topo_order(r, forest):
     return out
 
 
+def has_use_flavors(spec):
+    qs = [spec['quals']] + [e['quals'] for k in ('props', 'methods')
+                            for e in spec[k]] + \
+        [p['quals'] for e in spec['methods'] for p in e['params']]
+    return any(isinstance(v, dict) for q in qs for v in q.values())
+
+
 def put_class(conn, spec, via, modify=False):
     cl = build_class(spec)
+    if via == 'mof' and has_use_flavors(spec):
+        # CIMQualifier.tomof() does not write flavors: a class whose
+        # qualifiers carry flavors of their own goes through the API
+        via = 'api'
     if via == 'mof':
         conn.compile_mof_string(cl.tomof(), namespace=NS)
     elif via == 'add' and not modify:
@@ -526,7 +600,8 @@ class Oracle:
                           '%s: qualifier %s=%r returned but neither '
                           'declared here nor inherited per its flavor' % (
                               where, q, g[q]))
-            elif g[q] != exp[q]:
+            elif g[q] != (exp[q][0] if isinstance(exp[q], tuple)
+                          else exp[q]):
                 self.viol('qualifier-value/%s' % kind,
                           '%s: qualifier %s is %r, expected %r (nearest '
                           'declaration)' % (where, q, g[q], exp[q]))
@@ -614,7 +689,7 @@ class Oracle:
                 mine = [e for e in spec[kind] if e['name'].lower() == en]
                 own = list(mine[0]['quals']) if mine else []
                 if x['declared_here'] and not x['introduced_here']:
-                    eq['override'] = mine[0]['name']
+                    eq['override'] = (mine[0]['name'], False, True)
                     own.append('override')
                 self._cmp_quals(ek, we, g.qualifiers, eq, own)
         if flags:
@@ -911,6 +986,14 @@ def execute(plan):
                     del m.inst[key]
                 ndel += 1
                 bump(probes, 'deleted_classes', len(st['gone']))
+            elif op == 'failed_compile':
+                mof = '\n'.join(build_class(x).tomof()
+                                for x in st['classes']) + \
+                    ('\n this is not mof ;\n' if st.get('tail') == 'syntax'
+                     else '\nclass FcBad : NoSuchSuperclass { };\n')
+                conn.compile_mof_string(mof, namespace=NS)
+                outcome = 'ok'
+                V.append({'sig': 'C12/invalid-mof-accepted', 'msg': mof[-80:]})
             elif op == 'inst':
                 conn.CreateInstance(CIMInstance(st['cls'],
                                                 {'K': st['key']}),
